@@ -90,6 +90,16 @@ def main(argv):
             results.append((m['id'], det))
         finally:
             shutil.rmtree(d, ignore_errors=True)
+    try:
+        out_path = os.path.join(ROOT, 'tools', 'mutant_results.json')
+        prev = json.load(open(out_path)) if os.path.exists(out_path) else {}
+        for m in sel:
+            r = dict(results).get(m['id'])
+            if r:
+                prev[m['id']] = {'prop': m['prop'], 'desc': m['desc'], 'result': r, 'tier': tier}
+        json.dump(prev, open(out_path, 'w'), indent=1, sort_keys=True)
+    except Exception as e:
+        print('could not write mutant_results.json', e)
     missed = [r for r in results if r[1] != 'DETECTED']
     print(f'{len(results) - len(missed)}/{len(results)} detected; not detected: {missed}')
     return 0 if not missed else 1
